@@ -305,6 +305,8 @@ func (m *message) describe() string {
 type ex struct {
 	mod        *martianhttp.Modifier
 	active     *node  // the oracle's view: last body it judged acceptable
+	sideQ      *node  // … and the tree in force per side (differs from active after a `set` op)
+	sideS      *node
 	activeText []byte // indented text of that body
 	rejected   bool   // a rejected body was seen since the last accepted one
 }
@@ -390,7 +392,7 @@ func (e *ex) postText(text []byte, n *node) core.Result {
 	if want {
 		var buf bytes.Buffer
 		json.Indent(&buf, text, "", "  ")
-		e.active, e.activeText, e.rejected = n, buf.Bytes(), false
+		e.active, e.sideQ, e.sideS, e.activeText, e.rejected = n, n, n, buf.Bytes(), false
 	} else {
 		e.rejected = true
 	}
@@ -401,6 +403,35 @@ func (e *ex) postText(text []byte, n *node) core.Result {
 		return fail("c12:config-text", "GET configure returns %q, last accepted body is %q", gw.Body.String(), e.activeText)
 	}
 	return core.Result{Impl: impl}
+}
+
+// set: the tree is built by parse.FromJSON and one of its sides installed through the Go API
+// (SetRequestModifier / SetResponseModifier), which leaves the stored configuration text alone.
+func (e *ex) set(response bool, n *node) core.Result {
+	r, perr := parse.FromJSON([]byte(n.json(true)))
+	if perr != nil {
+		core.Count("set:rejected-by-parse")
+		return core.Result{Impl: "set rej " + canonParseErr(perr), ModelOp: "set " + map[bool]string{false: "q", true: "s"}[response] + " " + n.String()}
+	}
+	var has bool
+	if response {
+		m := r.ResponseModifier()
+		has = m != nil
+		e.mod.SetResponseModifier(m)
+		e.sideS = n
+	} else {
+		m := r.RequestModifier()
+		has = m != nil
+		e.mod.SetRequestModifier(m)
+		e.sideQ = n
+	}
+	core.Count("set:installed-" + b01(has))
+	gw := httptest.NewRecorder()
+	e.mod.ServeHTTP(gw, httptest.NewRequest("GET", "http://martian.proxy/configure", nil))
+	if !bytes.Equal(gw.Body.Bytes(), e.activeText) {
+		return fail("c12:config-text", "GET configure returns %q after Set*Modifier, last accepted body is %q", gw.Body.String(), e.activeText)
+	}
+	return core.Result{Impl: "set " + b01(has), ModelOp: "set " + map[bool]string{false: "q", true: "s"}[response] + " " + n.String()}
 }
 
 func (e *ex) run(kind string, m *message) core.Result {
@@ -423,16 +454,23 @@ func (e *ex) run(kind string, m *message) core.Result {
 		l, _ := strconv.Atoi(s)
 		tr = append(tr, l)
 	}
+	inForce := e.sideQ
+	if response {
+		inForce = e.sideS
+	}
+	if inForce != e.active {
+		core.Count("run:on-a-side-installed-through-the-api")
+	}
 	es, flat, ok := canonErr(err)
-	if !ok && response && strings.Contains(err.Error(), "missing port in address") && hasPortFilter(e.active) {
-		return fail("c12:port-filter-response-error", "a response whose request URL (%s://%s) has no explicit port went through a port.Filter for another port: ModifyResponse returned %q instead of leaving the response alone (the request side returns nil); in a group this error stops the group (tree %s)", m.scheme, m.host, err, e.active)
+	if !ok && response && strings.Contains(err.Error(), "missing port in address") && hasPortFilter(inForce) {
+		return fail("c12:port-filter-response-error", "a response whose request URL (%s://%s) has no explicit port went through a port.Filter for another port: ModifyResponse returned %q instead of leaving the response alone (the request side returns nil); in a group this error stops the group (tree %s)", m.scheme, m.host, err, inForce)
 	}
 	if !ok {
 		return fail("c12:foreign-error", "modifier returned something other than nil, a leaf error, or one MultiError of leaf errors (nesting deeper than one?): %T %v", err, err)
 	}
 	impl := "t=" + intsToken(tr) + " e=" + es
 	abstain := false
-	exp := interp(e.active, response, func(c *condSpec) bool {
+	exp := interp(inForce, response, func(c *condSpec) bool {
 		h, known := holdsSpec(c, m, response)
 		if !known { // outside the domain where the statement fixes the matcher's meaning: follow the code
 			abstain = true
@@ -463,10 +501,10 @@ func (e *ex) run(kind string, m *message) core.Result {
 		if e.rejected {
 			sig = "c12:trace-mismatch-after-reject"
 		}
-		return core.Result{Impl: impl, Fail: fmt.Sprintf("leaves that ran: %v, depth-first reading of the active tree says %v (tree %s)", tr, exp.trace, e.active), Sig: sig}
+		return core.Result{Impl: impl, Fail: fmt.Sprintf("leaves that ran: %v, depth-first reading of the active tree says %v (tree %s)", tr, exp.trace, inForce), Sig: sig}
 	}
 	if !sameInts(flat, exp.errs) {
-		return core.Result{Impl: impl, Fail: fmt.Sprintf("errors reported: %v (%s), depth-first reading says %v (tree %s)", flat, es, exp.errs, e.active), Sig: "c12:error-mismatch"}
+		return core.Result{Impl: impl, Fail: fmt.Sprintf("errors reported: %v (%s), depth-first reading says %v (tree %s)", flat, es, exp.errs, inForce), Sig: "c12:error-mismatch"}
 	}
 	return core.Result{Impl: impl}
 }
@@ -482,6 +520,12 @@ func (e *ex) Do(op string) core.Result {
 		r := e.post(n)
 		r.ModelOp = "post " + n.String()
 		return r
+	case len(f) >= 3 && f[0] == "set" && (f[1] == "q" || f[1] == "s"):
+		n, ok := parseTree(f[2:])
+		if !ok {
+			return core.Result{Impl: "bad-op"}
+		}
+		return e.set(f[1] == "s", n)
 	case len(f) == 4 && f[0] == "run" && (f[1] == "q" || f[1] == "s"): // legacy: 9-integer message, atoms ignored
 		m, ok := legacyMessage(f[2])
 		if !ok {
